@@ -390,6 +390,12 @@ fn sc_swaps_and_routes(t: &mut Tracer) {
         w.swap(&tr, "o.ss3", &[coin(amt.min(400_000_000_000), "uusdt")], "uweth", None, half, None);
         w.swap(&tr, "o.ss3", &[coin(amt, "uweth")], "uusd", None, half, None);
     }
+    // dust trades on the fee-less pool with every tolerance: a one-unit loss on ten units is 10 %
+    for amt in [2u128, 3, 5, 10, 11, 100, 101, 1000, 1001] {
+        for tol in [None, Some(Decimal::zero()), Some(Decimal::permille(1)), Some(Decimal::percent(1)), Some(Decimal::percent(10))] {
+            w.swap(&tr, "o.cp0", &[coin(amt, "uusd")], "uom", None, tol, None);
+        }
+    }
     // invalid swaps
     w.swap(&tr, "o.cp1", &[coin(10, "uusdc")], "uusdc", None, None, None);
     w.swap(&tr, "o.cp1", &[coin(10, "uweth")], "uusdt", None, None, None);
@@ -481,6 +487,13 @@ fn sc_liquidity(t: &mut Tracer, ss_decs: [u8; 2], name: &str) {
     w.provide(&c, "o.cp1", &sorted(vec![coin(5_000 * d(6), "uusdc"), coin(7_000 * d(6), "uusdt")]), None, Some(7 * DAY), Some("u-mine"), None, None); // foreign id
     w.provide(&c, "o.cp1", &[coin(100_000_000_000_000, "uusdc")], None, None, None, None, Some(Decimal::percent(1))); // internal swap exceeds slippage: refused
     w.provide(&c, "o.cp1", &[coin(1, "uusdc")], None, None, None, None, half); // half = 0
+    // single-asset deposits large enough to move the price, with a liquidity tolerance tighter than the swap tolerance
+    for (liq, sw) in [(1u64, 20u64), (5, 30), (20, 30), (1, 1)] {
+        w.provide(&c, "o.cp1", &[coin(1_500_000 * d(6), "uusdc")], None, None, None, Some(Decimal::percent(liq)), Some(Decimal::percent(sw)));
+    }
+    // locking the LP of one pool into a position that holds the LP of another pool: refused
+    w.provide(&a, "o.cp2", &sorted(vec![coin(3_000 * d(6), "uusdt"), coin(1_000_000_000_000_000_000, "uweth")]), None, Some(DAY), Some("u-mine"), None, None);
+    w.provide(&a, "o.cp2", &[coin(3_000 * d(6), "uusdt")], None, Some(DAY), Some("u-mine"), None, half);
     // empty pool: single-asset refused
     let ok = w.creation_funds();
     let o = w.user(0);
